@@ -202,10 +202,20 @@ def conc_scenarios(tier):
     ]
     probe += batch
     expects = {n: expect(su, th) for (n, su, th, _c) in batch}
+    # batch calls on a UNIQUE index claiming the same fresh key (and one racing a plain insert): whoever wins,
+    # no schedule may end with two owners of a key, in memory or after flush + cold load
+    ubatch = [
+        ("uniq-ia-ia-fresh", [I(1, 2)], [[IA(3, [1, 3])], [IA(4, [1, 4])]], cap2),
+        ("uniq-ia-insert-fresh", [I(1, 2)], [[IA(3, [5, 1])], [I(4, 1)]], cap2),
+        ("uniq-ia-ia-ia", [], [[IA(1, [1, 2])], [IA(2, [2, 3])], [IA(3, [3, 1])]], cap3),
+    ]
     mk = lambda lst, u, gate: [{"name": n, "nk": 6, "uniq": u, "respect_gate": gate, "setup": su, "threads": th,
                                 "cap": cap, "random": len(th) >= 3, "seed": vlib.seed() + i}
                                for i, (n, su, th, cap) in enumerate(lst)]
-    out = {"dup": mk(dup, False, True), "uniq": mk(uniq, True, True), "probe": mk(probe, False, False)}
+    out = {"dup": mk(dup, False, True), "uniq": mk(uniq, True, True), "probe": mk(probe, False, False),
+           "uprobe": mk(ubatch, True, False)}
+    for sc in out["uprobe"]:
+        sc["respect_gate"] = True
     for sc in out["probe"]:
         if sc["name"] in expects:
             sc["expect"] = expects[sc["name"]]
@@ -252,13 +262,15 @@ def _conc(tier, wd, groups=None, cfgs=None):
         for mm in summ["final_mismatch"]:
             out["failures"].append({"tag": f"{group}:{mm['scenario']}", "reason": "after the threads finished, flush + "
                                     "cold load does not return the in-memory content" if "loaded" in mm else
+                                    "after the threads finished a unique index lists two owners for one key"
+                                    if mm.get("unique_violated") else
                                     "after the threads finished the content is not what the (commuting) calls add up to",
                                     "line_in_trace": 0,
                                     "event": mm, "trace": [], "header": None})
         if summ["deadlocks"]:
             out["failures"].append({"tag": group, "reason": f"{summ['deadlocks']} schedules deadlocked",
                                     "line_in_trace": 0, "event": {}, "trace": [], "header": None})
-        if group != "probe":
+        if group not in ("probe", "uprobe"):
             with open(tf) as f:
                 header = json.loads(f.readline())
             res = cc.validate_file(tf, wd, f"btc-{group}", cfg="BTreeConcTrace.cfg", module="BTreeConcTrace")
